@@ -17,6 +17,17 @@ CLAIMED = {
         note="Trusted: TLC, the symbol rendering table (N -> 'N½'), the label tokenizer ('N2SWNE' -> N2,SW,NE). "
              "Text spelling variants are C07's business. Chains beyond length 7 and depths beyond 6 are not explored.",
         design_ref="§5.3, §6 C02"),
+    "C05": dict(
+        technique="PlusCal/TLA+ transcription of the right-to-left unpacking scan checked against the left-to-right "
+                  "denotation by TLC + every list rendered into find_sec/PLSSDesc/Tract + TLC trace validation",
+        text="TLC proves scan = Expand (and flag <=> non-ascending range, shift invariance, aliquots_through) for every list "
+             "up to 4 written numbers; every such list and thousands of longer random ones are rendered with random documented "
+             "connective/keyword spellings and run through find_sec, PLSSDesc (one tract per section, shared description, "
+             "warning on every tract) and Tract (lots, ilots); TLC evaluates obs = Expand(input) and descending => warning "
+             "on each observation.",
+        note="Trusted: the spelling tables in harness/drivers/c05.py. Chained ranges (a - b - c) and equal end points are "
+             "outside the claim (drift only). Numbers 1..99 / 1..999.",
+        design_ref="§5.2, §6 C05"),
 }
 
 NOT_APPLICABLE = {
